@@ -88,6 +88,7 @@ JudgeDec(t, i, T, v, e) ==
             LET b == Parse("BER", T, e.inp)
                 d == Parse(RulesName(e.rules), T, e.inp)
             IN IF b.st = "ok" /\ b.v = Norm(T, v) /\ Len(b.rest) = 0 /\ d.st = "err"
+                  /\ (e.guided \/ NoImplicit(T))   \* without the type only self-describing encodings qualify
                THEN Check(t, i, "Accepted", e.st \in {"error", "underrun"})
                ELSE PrintT(<<"SKIP", Cases[t].id, i>>)
        [] e.why = "free" ->   \* arbitrary input: differential against the reference reader where it is "ok"
